@@ -215,7 +215,7 @@ class Input:
         self.ncol = len(cols)
         self.names = ['a', 'a'] if kind == 'df2same' else ['a', 'b'][:self.ncol]
         self.is_pd = kind in ('series', 'series_dup', 'df1', 'df2', 'df2same')
-        self.ndim = 1 if kind in ('series', 'series_dup', 'arr1') else 2
+        self.ndim = 1 if kind in ('series', 'series_dup', 'arr1', 'arr1f32') else 2
         self.stamps = [START + pd.Timedelta(days=i) for i in range(n)]
         if kind == 'series_dup' and n >= 2:
             self.stamps[1] = self.stamps[0]          # two observations carrying one timestamp: rows are positions, not labels
@@ -225,6 +225,8 @@ class Input:
 
     def _raw(self):
         fl = [[np.nan if v is None else v for v in c] for c in self.cols]
+        if self.kind == 'arr1f32':
+            return np.array(fl[0], dtype=np.float32)          # a float array of another width holds NaN like any float array
         if self.ndim == 1:
             return np.array(fl[0], dtype=float)
         return np.array(fl, dtype=float).T.reshape(self.n, self.ncol).copy()
@@ -386,6 +388,8 @@ def check(case):
         pairs = [('series', 'arr1'), ('df1', 'arr21')]
         if 2 <= n <= 5 and not case.get('vals'):
             pairs.append(('series_dup', 'arr1'))
+        if 1 <= n <= 4:
+            pairs.append(('series', 'arr1f32'))
     else:
         n = len(case['mask'])
         cols = [[None if case['mask'][i][j] else 10.0 * (2 * i + j) + 1 for i in range(n)] for j in range(2)]
